@@ -5,7 +5,7 @@ Extraction Language OCaml.
 Cd "../build/ocaml".
 Extraction "c20_model.ml"
   parse_url parse_error_code utf8_encode
-  path_components path_is_absolute path_eq component_bytes
+  path_components path_is_absolute path_eq path_join component_bytes
   from_file_path from_directory_path to_file_path url_join dir_join_to_path
   name_reference plain_name simple_name scheme_like drive_like
   path_segments host_of.
